@@ -65,7 +65,24 @@ pub enum V {
     /// textarea / style / script with string children (`Some`) and children that render to nothing
     /// (`None(k)`: `()`, `Option::None`, empty `Vec`)
     Raw(usize, Vec<(usize, String)>, Vec<Result<String, i64>>),
+    /// further combinators (oracle-only coverage)
+    Eka(Option<(Box<V>, Box<V>)>, bool), // EitherKeepAlive { a, b, show_b }; None = { a: None, b: None }
+    Of3(i64, Box<V>),                    // EitherOf3::A / B / C
+    Res(Option<Box<V>>),                 // Result<_, E>: Ok(v) / Err
+    StaticVec(Vec<V>),
+    Arr2(Box<V>, Box<V>),                // [T; 2]
+    Str(i64, String),                    // Arc<str> / Cow<'static, str>
+    Owned(Box<V>),                       // OwnedView
 }
+
+#[derive(Debug, Clone)]
+struct Boom;
+impl std::fmt::Display for Boom {
+    fn fmt(&self, f: &mut std::fmt::Formatter<'_>) -> std::fmt::Result {
+        f.write_str("boom")
+    }
+}
+impl std::error::Error for Boom {}
 
 fn text(s: &Sexp) -> String {
     s.string().expect("case strings are valid UTF-8 by construction")
@@ -109,6 +126,14 @@ pub fn dec_view(s: &Sexp) -> V {
             dec_attrs(s.at(2)),
             s.at(3).list().iter().map(|p| if p.at(0).num() == 1 { Ok(text(p.at(1))) } else { Err(p.at(1).num()) }).collect(),
         ),
+        16 => V::Eka(Some((Box::new(dec_view(s.at(1))), Box::new(dec_view(s.at(2))))), s.at(3).num() != 0),
+        17 => V::Eka(None, s.at(1).num() != 0),
+        18 => V::Of3(s.at(1).num(), Box::new(dec_view(s.at(2)))),
+        19 => V::Res(if s.at(1).num() != 0 { Some(Box::new(dec_view(s.at(2)))) } else { None }),
+        20 => V::StaticVec(many(s.at(1))),
+        21 => V::Arr2(Box::new(dec_view(s.at(1))), Box::new(dec_view(s.at(2)))),
+        22 => V::Str(s.at(1).num(), text(s.at(2))),
+        23 => V::Owned(Box::new(dec_view(s.at(1)))),
         _ => V::Unit,
     }
 }
@@ -251,6 +276,35 @@ pub fn mk(v: &V) -> AnyView {
             })
             .into_any()
         }
+        V::Eka(sides, show_b) => {
+            use tachys::view::either::EitherKeepAlive;
+            let (a, b) = match sides {
+                Some((a, b)) => (Some(mk(a)), Some(mk(b))),
+                None => (None, None),
+            };
+            EitherKeepAlive::<AnyView, AnyView> { a, b, show_b: *show_b }.into_any()
+        }
+        V::Of3(i, x) => {
+            use either_of::EitherOf3;
+            match i {
+                0 => EitherOf3::<AnyView, AnyView, AnyView>::A(mk(x)),
+                1 => EitherOf3::B(mk(x)),
+                _ => EitherOf3::C(mk(x)),
+            }
+            .into_any()
+        }
+        V::Res(x) => match x {
+            Some(x) => Ok::<AnyView, Boom>(mk(x)),
+            None => Err(Boom),
+        }
+        .into_any(),
+        V::StaticVec(vs) => tachys::view::iterators::StaticVec::from(vs.iter().map(mk).collect::<Vec<AnyView>>()).into_any(),
+        V::Arr2(a, b) => [mk(a), mk(b)].into_any(),
+        V::Str(k, t) => match k {
+            0 => std::sync::Arc::<str>::from(t.as_str()).into_any(),
+            _ => std::borrow::Cow::<'static, str>::Owned(t.clone()).into_any(),
+        },
+        V::Owned(x) => tachys::reactive_graph::OwnedView::new(mk(x)).into_any(),
         V::Raw(t, a, parts) => {
             let kids: Vec<AnyView> = parts
                 .iter()
@@ -297,6 +351,13 @@ fn perturb(v: &V) -> V {
         V::Num(n) => V::Num(n.wrapping_add(1)),
         V::Suspend(id, pend, x) => V::Suspend(*id, *pend, Box::new(perturb(x))),
         V::Raw(t, a, parts) => V::Raw(*t, pa(a), parts.iter().map(|p| p.clone().map(|s| format!("{s}~"))).collect()),
+        V::Eka(sides, sb) => V::Eka(sides.as_ref().map(|(a, b)| (Box::new(perturb(a)), Box::new(perturb(b)))), *sb),
+        V::Of3(i, x) => V::Of3(*i, Box::new(perturb(x))),
+        V::Res(x) => V::Res(x.as_ref().map(|x| Box::new(perturb(x)))),
+        V::StaticVec(l) => V::StaticVec(many(l)),
+        V::Arr2(a, b) => V::Arr2(Box::new(perturb(a)), Box::new(perturb(b))),
+        V::Str(k, t) => V::Str(*k, format!("{t}~")),
+        V::Owned(x) => V::Owned(Box::new(perturb(x))),
     }
 }
 
@@ -599,6 +660,9 @@ fn run_case(c: &Sexp) -> Sexp {
     if c.at(0).num() == 2 {
         return run_streamed(c);
     }
+    if c.at(0).num() == 3 {
+        return run_resolved(c);
+    }
     let v1 = dec_view(c.at(1));
     let v2 = dec_view(c.at(2));
     let html = mk(&v1).to_html();
@@ -629,9 +693,11 @@ fn run_case(c: &Sexp) -> Sexp {
     preorder(&root, &mut nodes);
     let counts: Vec<(u64, u64)> = nodes.iter().map(|n| (n.id(), n.mutations())).collect();
     let twin_before = shape(&root2);
+    // `(0 v1 v2 1)`: no rebuild with the perturbed view before the rebuild with v2
+    let skip = c.at(3).num() != 0;
     let vp = perturb(&v1);
-    let twin_ok = catch_unwind(AssertUnwindSafe(|| mk(&vp).rebuild(&mut st2))).is_ok();
-    let hyd_ok = catch_unwind(AssertUnwindSafe(|| mk(&vp).rebuild(&mut st))).is_ok();
+    let twin_ok = skip || catch_unwind(AssertUnwindSafe(|| mk(&vp).rebuild(&mut st2))).is_ok();
+    let hyd_ok = skip || catch_unwind(AssertUnwindSafe(|| mk(&vp).rebuild(&mut st))).is_ok();
     let mut touched: Vec<i64> = nodes
         .iter()
         .zip(counts.iter())
@@ -799,7 +865,56 @@ fn run_streamed(c: &Sexp) -> Sexp {
     }
     STREAMING.with(|s| s.set(false));
     SENDERS.with(|s| s.borrow_mut().clear());
+    hydrate_markup(&html, &v)
+}
 
+/// case `(3 view early order)`: the third server form, `view.resolve().await.to_html()`; the futures of
+/// the pending `Suspend`s complete before the first poll (`early`) or whenever the resolution stalls,
+/// in `order`. Then as for the streamed forms.
+fn run_resolved(c: &Sexp) -> Sexp {
+    use std::future::Future;
+    let v = dec_view(c.at(1));
+    SENDERS.with(|s| s.borrow_mut().clear());
+    STREAMING.with(|s| s.set(true));
+    let mut fut = Box::pin(mk(&v).resolve());
+    let complete = |id: Option<i64>| -> bool {
+        let tx = SENDERS.with(|s| {
+            let mut s = s.borrow_mut();
+            let i = id.and_then(|id| s.iter().position(|e| e.0 == id)).or(if s.is_empty() { None } else { Some(0) });
+            i.map(|i| s.remove(i).1)
+        });
+        tx.map(|tx| tx.send(()).is_ok() || true).unwrap_or(false)
+    };
+    for id in c.at(2).nums() {
+        if SENDERS.with(|s| s.borrow().iter().any(|e| e.0 == id)) {
+            complete(Some(id));
+        }
+    }
+    let waker = futures::task::noop_waker();
+    let mut cx = std::task::Context::from_waker(&waker);
+    let mut order = c.at(3).nums().into_iter();
+    let mut stalls = 0;
+    let resolved = loop {
+        match fut.as_mut().poll(&mut cx) {
+            std::task::Poll::Ready(out) => break out,
+            std::task::Poll::Pending => {
+                stalls += 1;
+                assert!(stalls < 200, "resolve() does not finish");
+                complete(order.next());
+            }
+        }
+    };
+    STREAMING.with(|s| s.set(false));
+    SENDERS.with(|s| s.borrow_mut().clear());
+    let html = resolved.to_html();
+    hydrate_markup(&html, &v)
+}
+
+/// parse the markup a server form produced (running the out-of-order scripts), hydrate the view with
+/// its futures resolved against it and compare with the client-built twin
+fn hydrate_markup(html: &str, v: &V) -> Sexp {
+    let html = html.to_string();
+    let v = v.clone();
     let root = Dom::create_element("div", None);
     parse_into(&root, &html);
     // run the scripts of the out-of-order chunks, in document order
